@@ -73,3 +73,168 @@ Proof.
   destruct (r =? 4) eqn:R4; destruct (r =? 0) eqn:R0; destruct (r =? 2) eqn:R2; destruct (r =? 3) eqn:R3;
   cbn; split; intro H; try reflexivity; try discriminate; try lia.
 Qed.
+
+(* ---- the server's reaction, end to end for one request (ReverseProxy.ServeHTTP + FinishReq) ---- *)
+Definition react (chains : Z -> list Z) (p : Z) : Z := reaction p (ret (snd (run_chain (chains p)))).
+Definition verdict_at (chains : Z -> list Z) (p : Z) : Z := snd (run_chain (chains p)).
+(* every request-phase point before p let the request pass (verdict continue or ignored) *)
+Definition earlier_pass (chains : Z -> list Z) (p : Z) : Prop :=
+  forall q, In q [PBeforeLocation; PFoundProduct; PAfterLocation] -> q < p -> react chains q = RIgnore.
+
+Ltac open_request chains :=
+  cbv zeta;
+  unfold serve_request, request_points, forward_phase, response_got, finish_req, walk, react, verdict_at in *;
+  unfold PAccept, PBeforeLocation, PFoundProduct, PAfterLocation, PForward, PReadResponse, PRequestFinish, PFinish in *;
+  repeat match goal with
+         | |- context [run_chain (chains ?p)] =>
+           let c := fresh "c" in let v := fresh "v" in let E := fresh "E" in
+           destruct (run_chain (chains p)) as [c v] eqn:E; rewrite ?E in *
+         end;
+  cbn [snd fst] in *.
+
+Ltac use_pass H q :=
+  let Hq := fresh "Hq" in
+  assert (Hq := H q); cbn [In] in Hq; unfold PBeforeLocation, PFoundProduct, PAfterLocation in Hq;
+  let T := type of Hq in
+  match T with ?A -> ?B -> _ => assert (A) as HA by auto 6; assert (B) as HB by lia; specialize (Hq HA HB); clear HA HB end.
+
+Lemma request_point_cases p : In p [PBeforeLocation; PFoundProduct; PAfterLocation] -> p = 2 \/ p = 3 \/ p = 4.
+Proof. cbn. unfold PBeforeLocation, PFoundProduct, PAfterLocation. intuition. Qed.
+
+(* a close verdict at a request-phase point: nothing is sent, no backend is contacted, the connection is closed *)
+Theorem close_sends_nothing chains bst p :
+  In p [PBeforeLocation; PFoundProduct; PAfterLocation] -> earlier_pass chains p -> react chains p = RCloseDirect ->
+  let q := serve_request chains bst in q_reply q = no_reply /\ q_contacted q = 0 /\ q_keep q = false.
+Proof.
+  intros Hin Hpass Hr. destruct (request_point_cases p Hin) as [E|[E|E]]; subst p.
+  - unfold earlier_pass in Hpass. open_request chains.
+    unfold PBeforeLocation in *. rewrite Hr. cbn. auto.
+  - unfold earlier_pass in Hpass. assert (H2 := Hpass 2). open_request chains.
+    unfold PBeforeLocation, PFoundProduct in *.
+    rewrite H2 by (cbn; auto; try lia). rewrite Hr. cbn. auto.
+  - unfold earlier_pass in Hpass. assert (H2 := Hpass 2). assert (H3 := Hpass 3). open_request chains.
+    unfold PBeforeLocation, PFoundProduct, PAfterLocation in *.
+    rewrite H2 by (cbn; auto; try lia). rewrite H3 by (cbn; auto; try lia). rewrite Hr. cbn. auto.
+Qed.
+
+(* a redirect verdict at a request-phase point: exactly that redirect, no backend contact *)
+Theorem redirect_exact chains bst p :
+  In p [PBeforeLocation; PFoundProduct; PAfterLocation] -> earlier_pass chains p -> react chains p = RRedirect ->
+  let q := serve_request chains bst in
+  q_reply q = redir_reply (variant (verdict_at chains p)) /\ q_contacted q = 0.
+Proof.
+  intros Hin Hpass Hr. destruct (request_point_cases p Hin) as [E|[E|E]]; subst p.
+  - unfold earlier_pass in Hpass. open_request chains.
+    unfold PBeforeLocation in *. rewrite Hr. cbn. auto.
+  - unfold earlier_pass in Hpass. assert (H2 := Hpass 2). open_request chains.
+    unfold PBeforeLocation, PFoundProduct in *.
+    rewrite H2 by (cbn; auto; try lia). rewrite Hr. cbn. auto.
+  - unfold earlier_pass in Hpass. assert (H2 := Hpass 2). assert (H3 := Hpass 3). open_request chains.
+    unfold PBeforeLocation, PFoundProduct, PAfterLocation in *.
+    rewrite H2 by (cbn; auto; try lia). rewrite H3 by (cbn; auto; try lia). rewrite Hr. cbn. auto.
+Qed.
+
+(* a response verdict at a request-phase point: exactly that response (unless the HandleReadResponse chain, which
+   still runs on it, finishes or redirects), no backend contact *)
+Ltac finish_response :=
+  let r6 := fresh "r6" in
+  match goal with |- context [reaction 6 ?x] => remember (reaction 6 x) as r6 end;
+  cbn;
+  let A := fresh "A" in let B := fresh "B" in let H := fresh "H" in
+  destruct (r6 =? RCloseAfterReply) eqn:A; [cbn; split; [reflexivity|intro H; rewrite H in A; discriminate]|];
+  destruct (r6 =? RRedirect) eqn:B; cbn; (split; [reflexivity|]); intro H; rewrite H in B; try discriminate; reflexivity.
+
+Theorem response_exact chains bst p :
+  In p [PBeforeLocation; PFoundProduct; PAfterLocation] -> earlier_pass chains p -> react chains p = RResponse ->
+  let q := serve_request chains bst in
+  q_contacted q = 0 /\ (react chains PReadResponse = RIgnore -> q_reply q = mod_reply (variant (verdict_at chains p))).
+Proof.
+  intros Hin Hpass Hr. destruct (request_point_cases p Hin) as [E|[E|E]]; subst p.
+  - unfold earlier_pass in Hpass. open_request chains.
+    rewrite Hr. finish_response.
+  - unfold earlier_pass in Hpass. assert (H2 := Hpass 2). open_request chains.
+    rewrite H2 by (cbn; auto; try lia). rewrite Hr. finish_response.
+  - unfold earlier_pass in Hpass. assert (H2 := Hpass 2). assert (H3 := Hpass 3). open_request chains.
+    rewrite H2 by (cbn; auto; try lia). rewrite H3 by (cbn; auto; try lia). rewrite Hr. finish_response.
+Qed.
+
+(* a finish verdict wherever the server honours it: the connection is closed after a reply was sent *)
+Theorem finish_closes_request_point chains bst p :
+  In p [PBeforeLocation; PFoundProduct; PAfterLocation] -> earlier_pass chains p -> react chains p = RCloseAfterReply ->
+  let q := serve_request chains bst in q_keep q = false /\ r_status (q_reply q) <> 0 /\ q_contacted q = 0.
+Proof.
+  intros Hin Hpass Hr. destruct (request_point_cases p Hin) as [E|[E|E]]; subst p.
+  - unfold earlier_pass in Hpass. open_request chains.
+    rewrite Hr. cbn. repeat split; discriminate.
+  - unfold earlier_pass in Hpass. assert (H2 := Hpass 2). open_request chains.
+    rewrite H2 by (cbn; auto; try lia). rewrite Hr. cbn. repeat split; discriminate.
+  - unfold earlier_pass in Hpass. assert (H2 := Hpass 2). assert (H3 := Hpass 3). open_request chains.
+    rewrite H2 by (cbn; auto; try lia). rewrite H3 by (cbn; auto; try lia). rewrite Hr. cbn. repeat split; discriminate.
+Qed.
+
+Lemma redir_code_nonzero k : redir_code k <> 0.
+Proof. unfold redir_code. destruct (k =? 0); [discriminate|]. destruct (k =? 1); discriminate. Qed.
+Lemma resp_status_nonzero k : resp_status k <> 0.
+Proof. unfold resp_status. destruct (k =? 0); [discriminate|]. destruct (k =? 1); discriminate. Qed.
+
+(* HandleRequestFinish: Finish closes the connection whatever happened before (the reply has been sent by then) *)
+Theorem finish_closes_at_request_finish chains bst :
+  react chains PRequestFinish = RCloseAfterReply -> q_keep (serve_request chains bst) = false.
+Proof.
+  intro Hr. open_request chains. rewrite Hr. cbn.
+  repeat match goal with |- context [if ?b then _ else _] => destruct b end; cbn; try reflexivity; apply andb_false_r.
+Qed.
+
+(* HandleForward / HandleReadResponse: when all request-phase points pass *)
+Theorem finish_closes_forward chains bst :
+  earlier_pass chains PForward -> react chains PForward = RCloseAfterReply ->
+  let q := serve_request chains bst in q_keep q = false /\ r_status (q_reply q) <> 0 /\ q_contacted q = 0.
+Proof.
+  intros Hpass Hr. unfold earlier_pass in Hpass.
+  assert (H2 := Hpass 2). assert (H3 := Hpass 3). assert (H4 := Hpass 4). open_request chains.
+  rewrite H2 by (cbn; auto; try lia). rewrite H3 by (cbn; auto; try lia). rewrite H4 by (cbn; auto; try lia). rewrite Hr.
+  match goal with |- context [reaction 6 ?x] => remember (reaction 6 x) as r6 end.
+  match goal with |- context [reaction 7 ?x] => remember (reaction 7 x) as r7 end.
+  cbn. destruct (r6 =? RCloseAfterReply); [cbn; repeat split; discriminate|].
+  destruct (r6 =? RRedirect); cbn; repeat split; try discriminate. apply redir_code_nonzero.
+Qed.
+
+Theorem finish_closes_read_response chains bst :
+  earlier_pass chains PForward -> react chains PReadResponse = RCloseAfterReply ->
+  let q := serve_request chains bst in q_keep q = false /\ r_status (q_reply q) <> 0.
+Proof.
+  intros Hpass Hr. unfold earlier_pass in Hpass.
+  assert (H2 := Hpass 2). assert (H3 := Hpass 3). assert (H4 := Hpass 4). open_request chains.
+  rewrite H2 by (cbn; auto; try lia). rewrite H3 by (cbn; auto; try lia). rewrite H4 by (cbn; auto; try lia). rewrite Hr.
+  match goal with |- context [reaction 5 ?x] => remember (reaction 5 x) as r5 end.
+  match goal with |- context [reaction 7 ?x] => remember (reaction 7 x) as r7 end.
+  cbn. destruct (r5 =? RCloseAfterReply); cbn; repeat split; discriminate.
+Qed.
+
+(* a pair the switch ignores behaves exactly like continue at that point (request-phase points) *)
+Theorem ignored_is_continue chains bst p calls rest :
+  In p [PBeforeLocation; PFoundProduct; PAfterLocation] -> react chains p = RIgnore ->
+  request_points chains bst (p :: rest) calls = request_points chains bst rest (calls ++ [(p, fst (run_chain (chains p)))]).
+Proof.
+  intros _ Hr. unfold react in Hr. cbn [request_points]. unfold walk.
+  destruct (run_chain (chains p)) as [c v] eqn:E. cbn [snd fst] in *. rewrite Hr. reflexivity.
+Qed.
+
+(* HandleAccept Close: nothing is sent, no request is served *)
+Theorem accept_close_sends_nothing h bst chains :
+  react chains PAccept = RCloseDirect ->
+  let k := serve_conn h bst chains in
+  k_reply k = no_reply /\ k_contacted k = 0 /\ k_open k = 0.
+Proof.
+  intro Hr. unfold react in Hr. cbv zeta. unfold serve_conn.
+  destruct (run_chain (chains PAccept)) as [c0 v0] eqn:E0. destruct (run_chain (chains PFinish)) as [c8 v8] eqn:E8.
+  cbn [snd] in Hr. rewrite Hr. cbn. auto.
+Qed.
+
+Example close_example :
+  let chains := fun p => if p =? 3 then [1; 4] else [1; 1] in
+  earlier_pass chains 3 /\ react chains 3 = RCloseDirect /\ q_calls (serve_request chains 200) = [(2, [1; 1]); (3, [1; 4]); (7, [1; 1])].
+Proof.
+  cbv zeta. split; [|split; reflexivity].
+  intros q Hq Hlt. cbn in Hq. destruct Hq as [H|[H|[H|[]]]]; subst q; try (unfold PFoundProduct, PAfterLocation in Hlt; lia). reflexivity.
+Qed.
